@@ -171,8 +171,12 @@ class LazyList:
         # Should work for infinite lists
         self_clone = vyxal.helpers.deep_copy(self)
         other_clone = vyxal.helpers.deep_copy(other)
-        item = next(self_clone)
-        other_item = next(other_clone)
+        end = object()
+        item = next(self_clone, end)
+        other_item = next(other_clone, end)
+        if item is end or other_item is end:
+            # An empty list is smaller than any non-empty one
+            return (other_item is end) - (item is end)
         while item == other_item:
             try:
                 item = next(self_clone)
